@@ -6,6 +6,8 @@ cd /repo || exit 2
 git diff --quiet || { echo "/repo has local modifications"; exit 2; }
 git apply "$d/patch.diff" || { echo "patch does not apply"; exit 2; }
 cd /verif
+# runs against a seeded tree must not leave their evidence behind
+ev=$(mktemp -d /var/tmp/verif_ev.XXXXXX); cp -a evidence/. "$ev"/
 for c in "$@"; do
   out=$(./check $c --tier quick 2>&1)
   rc=$?
@@ -24,3 +26,5 @@ print('   broken:', json.dumps(d.get('broken') or d.get('broken_obligations'))[:
   fi
 done
 cd /repo && git checkout -- . && git status --short | grep -v '^??'
+cd /verif && rm -rf evidence && mkdir evidence && cp -a "$ev"/. evidence/ && rm -rf "$ev"
+
